@@ -64,6 +64,10 @@ func init() {
 					d := 30 + r.IntN(90)
 					if k == 0 {
 						d = pick(r, 0, 0, 5, 20)
+						if i%6 == 5 {
+							// the run ends long before the first schedule's start delay has elapsed
+							d = pick(r, 3000, 60000, 3600000)
+						}
 					}
 					p.Scheds = append(p.Scheds, c18Sched{d, f})
 				}
@@ -258,7 +262,9 @@ func c18Gen(c *core.Case, o *core.Outcome) {
 	switch p.End {
 	case "stop":
 		l.Add("stop.call", "", "", 0, "")
-		runner.Stop()
+		if !c18BoundedStop(o, runner, rc, p.Desc) {
+			return
+		}
 		if n := rc.inflight.Load(); n != 0 {
 			o.Violate("stop-inflight:"+p.Desc, "Stop returned while the function was executing (%d in flight) (%s)", n, p.Desc)
 			return
@@ -271,7 +277,9 @@ func c18Gen(c *core.Case, o *core.Outcome) {
 		l.Add("cancel", "", "", 0, "")
 		cancel()
 		l.Add("stop.call", "", "", 0, "")
-		runner.Stop()
+		if !c18BoundedStop(o, runner, rc, p.Desc) {
+			return
+		}
 		if n := rc.inflight.Load(); n != 0 {
 			o.Violate("stop-inflight:"+p.Desc, "Stop (after cancellation) returned while the function was executing (%d in flight) (%s)", n, p.Desc)
 			return
@@ -319,6 +327,26 @@ func c18Gen(c *core.Case, o *core.Outcome) {
 		o.Sig("gen:scheds=%d:fn=%s:restarts=%v:end=%s:inflightAtEnd=%v:freqsSeen=%d", len(p.Scheds), fc, len(p.RestartsMS) > 0, p.End, inflightAtEnd > 0, len(seen))
 	}
 	o.Sample = map[string]any{"case": p.Desc, "invocations": len(invs), "frequencies_seen": len(seen), "in_flight_at_end": inflightAtEnd}
+}
+
+// c18BoundedStop calls Stop and waits for it; Stop not returning within 15 s although the function is not
+// executing is the bounded-progress violation of "Stop returns once the runner is quiescent".
+func c18BoundedStop(o *core.Outcome, runner *raterun.Runner, rc *c18Rec, desc string) bool {
+	done := make(chan struct{})
+	go func() { runner.Stop(); close(done) }()
+	deadline := time.After(15 * time.Second)
+	for {
+		select {
+		case <-done:
+			return true
+		case <-deadline:
+			if rc.inflight.Load() == 0 {
+				o.Violate("stop-hangs:"+desc, "Stop did not return within 15 s although the function is not executing (%s)", desc)
+				return false
+			}
+			deadline = time.After(15 * time.Second)
+		}
+	}
 }
 
 func sortInts(a []int) {
